@@ -673,7 +673,7 @@ def run(tier, seed, jobs) -> Result:
     rj = [r for r in rj if parse_one(r)[0] != "ok"]
     # (the very first line of a connection is a line like any other: `POP3` is what the POP3 front-end announces itself with)
     rj = ["POP3"] + rj
-    runits = [rj[i : i + 40] for i in range(0, len(rj), 40)] + [["POP3 "], ["pop3"], ["POP3", "a1 NOOP x y z ("]]
+    runits = [rj[i : i + 40] for i in range(0, len(rj), 40)] + [["POP3 "], ["pop3"], ["POP3", "a1 FETCH 1 ("]]
     nr = 0
     for f, n, _ in pmap(work_runloop, runits, jobs):
         res.failures.extend(f)
